@@ -1,6 +1,7 @@
 import QProofs.C04
 import QProofs.C04Psd
 import Mathlib.Logic.Equiv.Fin.Basic
+import Mathlib.Analysis.Real.Sqrt
 import Mathlib.LinearAlgebra.Matrix.NonsingularInverse
 /-! bridge of the inequality-projection model (`clipMat`, `matOfVec`, `coeffs`, `truncate`) at `R = ℝ`, `K = ℂ`
 to the Mathlib statements of `QProofs.C04Psd`. -/
@@ -217,6 +218,38 @@ theorem rabs_eq_abs (x : ℝ) : rabs x = |x| := by
   unfold rabs; split
   · rename_i h; rw [abs_of_neg h]
   · rename_i h; rw [abs_of_nonneg (not_lt.1 h)]
+
+/-! ### the normalised Pauli basis -/
+
+/-- `1/√2` -/
+noncomputable def rs2 : ℂ := ((Real.sqrt 2 : ℝ) : ℂ)⁻¹
+
+theorem rs2_mul_self : rs2 * rs2 = 1 / 2 := by
+  unfold rs2
+  rw [← mul_inv, ← Complex.ofReal_mul, Real.mul_self_sqrt (by norm_num)]
+  norm_num
+
+theorem star_rs2 : star rs2 = rs2 := by
+  unfold rs2
+  rw [star_inv₀]
+  congr 1
+  exact Complex.conj_ofReal _
+
+/-- Pauli matrices `I, X, Y, Z` (index 0..3) -/
+def sigma (a : Fin 4) (i j : Fin 2) : ℂ :=
+  match a.val, i.val, j.val with
+  | 0, 0, 0 => 1 | 0, 1, 1 => 1
+  | 1, 0, 1 => 1 | 1, 1, 0 => 1
+  | 2, 0, 1 => -Complex.I | 2, 1, 0 => Complex.I
+  | 3, 0, 0 => 1 | 3, 1, 1 => -1
+  | _, _, _ => 0
+
+/-- the normalised Pauli basis of quara (`get_normalized_pauli_basis`): `σ_a / √2` -/
+noncomputable def pauliB : Vector (Mat ℂ 2 2) 4 := Vector.ofFn fun a => Mat.ofFn fun i j => rs2 * sigma a i j
+
+theorem pauliB_apply (a : Fin 4) (i j : Fin 2) : basisM pauliB a i j = rs2 * sigma a i j := by
+  simp [basisM, pauliB]
+
 
 /-! a concrete instance used for the non-vacuity examples of QProps.C04 -/
 
